@@ -117,13 +117,16 @@ func Reset(database db.Database, destroy bool) error {
 // getCreateTraveller returns existing traveller record associated 
 // with provided passport details if it exists, and otherwise a new
 // traveller record with passport details filled in
-func (self *Engine) getCreateTraveller(passport Passport, now EpochTime)  *Traveller {
+func (self *Engine) getCreateTraveller(passport Passport, now EpochTime)  (*Traveller,error) {
 	traveller,err := self.Travellers.GetTraveller(passport)
 	if err != nil {
+		if !db.IsNotFound(err) {
+			return nil,logError(err)
+		}
 		traveller.passport=passport
 		traveller.Created=now
 	}
-	return &traveller
+	return &traveller,nil
 }
 
 // SubmitFlights submits a list of one or more flights for the traveller
@@ -143,8 +146,10 @@ func (self *Engine) SubmitFlights(passport Passport, flights []Flight, now Epoch
 	}
 
 	// Retrieve traveller record
-	t := self.getCreateTraveller(passport,now)
-
+	t,err := self.getCreateTraveller(passport,now)
+	if err != nil {
+		return err
+	}
 	
 	// Add flights to traveller's flight history
 	for _,flight := range flights {
@@ -164,7 +169,7 @@ func (self *Engine) SubmitFlights(passport Passport, flights []Flight, now Epoch
 	}
 
 	// Store updated traveller
-	err := self.Travellers.PutTraveller(*t)
+	err = self.Travellers.PutTraveller(*t)
 	return err
 }
 
@@ -425,7 +430,11 @@ func (self *Engine) Propose(passport Passport,flights [] Flight, tripEnd EpochTi
 	}
 
 	// Ask for proposal and return the result
-	return self.getCreateTraveller(passport,now).Promises.propose(ts,te,distance,travelled,now,self.Administrator.predictor,
+	t,err := self.getCreateTraveller(passport,now)
+	if err != nil {
+		return nil,err
+	}
+	return t.Promises.propose(ts,te,distance,travelled,now,self.Administrator.predictor,
 								  self.Administrator.params.Promises.MaxStackSize)
 }
 
@@ -443,8 +452,11 @@ func (self *Engine) Make(passport Passport, proposal *Proposal, now EpochTime) e
 	}
 
 	// Make promise
-	t := self.getCreateTraveller(passport,now)
-	err := t.Promises.make(proposal,self.Administrator.predictor)
+	t,err := self.getCreateTraveller(passport,now)
+	if err != nil {
+		return err
+	}
+	err = t.Promises.make(proposal,self.Administrator.predictor)
 	if (err == nil) {
 		err = self.Travellers.PutTraveller(*t)
 	}
